@@ -515,7 +515,7 @@ class C15(core.Check):
     level = "exploration"
     module = "dst.c15"
     budget = {"quick": 170, "thorough": 1700}
-    runs = {"quick": 330, "thorough": 5000}
+    runs = {"quick": 240, "thorough": 5000}
     assumptions = [
         "jobs are sequential public-API calls in one process; concurrent caller threads are outside the statement (it speaks of compute threads)",
         "a driver object is reused only for molecules whose elements it was constructed for",
